@@ -20,6 +20,7 @@ RTOL == [s |-> 1, m |-> <<0, 0, 0, 1000>>]      \* 1e-9: rounding residue of run
 One == [s |-> 1, m |-> <<0, 0, 0, 0, 0, 0, 1>>]
 In01(j) == RNum(j) /\ FxGe(RFx(j), FxNeg(RTOL)) /\ FxLe(RFx(j), FxAdd(One, RTOL))
 In11(j) == RNum(j) /\ FxGe(RFx(j), FxNeg(FxAdd(One, RTOL))) /\ FxLe(RFx(j), FxAdd(One, RTOL))
+In22(j) == RNum(j) /\ FxGe(RFx(j), FxNeg(FxAdd(FxAdd(One, One), RTOL))) /\ FxLe(RFx(j), FxAdd(FxAdd(One, One), RTOL))
 \* a >= b up to the allowance relative to their magnitude
 GeR(a, b) == RNum(a) /\ RNum(b) /\ FxGe(FxAdd(RFx(a), FxMul(RTOL, FxAdd(One, FxMax(FxAbs(RFx(a)), FxAbs(RFx(b)))))), RFx(b))
 
@@ -28,17 +29,27 @@ NonNegKinds == {"sma", "wma", "swma", "trima", "ema", "dma", "tma", "rma", "wsma
 AllNonNeg(kinds) == \A i \in 1..Len(kinds) : kinds[i] \in NonNegKinds
 
 \* v: logged values (JSON), c: the candle (Fx record), kinds: the MA kinds of the configuration
+\* volume-normalised quantities: the range is asserted where the exact denominator of the values specification (total volume /
+\* total money flow of the window) is at least a thousandth of its scale -- below that the code divides rounding residues
+RangeNeedsSpec == {"MoneyFlowIndex", "ChaikinMoneyFlow"}
+Defined(e) == e.kind = "abs" \/ (e.kind \in {"quot", "guard"} /\ FxGt(FxMulInt(e.den, 1000), e.sd))
+RangeOKDefined(name, v, exps) ==
+    CASE name = "MoneyFlowIndex" -> Defined(exps[2]) => In01(v[2])
+      [] name = "ChaikinMoneyFlow" -> Defined(exps[1]) => In11(v[1])
+      [] OTHER -> TRUE
 \* dry: how many bars in a row (this one included) had zero volume: a window of n bars holds volume iff dry < n
 RangeOK(name, cfg, c, v, kinds, dry) ==
     CASE name = "Aroon" -> In01(v[1]) /\ In01(v[2])
       [] name = "RelativeStrengthIndex" -> AllNonNeg(kinds) => In01(v[1])
-      [] name = "MoneyFlowIndex" -> dry < cfg.period => In01(v[2])
+      [] name = "MoneyFlowIndex" -> TRUE              \* (RangeOKDefined)
       [] name = "StochasticOscillator" -> AllNonNeg(kinds) => (In01(v[1]) /\ In01(v[2]))
       \* volume-normalised quantities are undefined (0/0) on zero total volume; relative changes need positive inputs
-      [] name = "ChaikinMoneyFlow" -> dry < cfg.size => In11(v[1])
+      [] name = "ChaikinMoneyFlow" -> TRUE            \* (RangeOKDefined)
       [] name = "ChandeMomentumOscillator" -> In11(v[1])
-      [] name = "TrueStrengthIndex" -> In11(v[1])
-      [] name = "SMIErgodicIndicator" -> In11(v[1])
+      \* the signal lines are averages of the main value with a non-overshooting kind (EMA for TrueStrengthIndex; configurable for
+      \* SMIErgodicIndicator, whose third value is main - signal)
+      [] name = "TrueStrengthIndex" -> In11(v[1]) /\ In11(v[2])
+      [] name = "SMIErgodicIndicator" -> In11(v[1]) /\ (AllNonNeg(kinds) => (In11(v[2]) /\ In22(v[3])))
       [] name = "BollingerBands" -> GeR(v[1], v[2]) /\ GeR(v[2], v[3])
       [] name = "KeltnerChannel" -> GeR(v[2], v[3])                         \* [source, upper, lower]
       [] name = "Envelopes" -> (cfg.k.s >= 0 /\ RNum(v[1]) /\ RFx(v[1]).s >= 0) => GeR(v[1], v[2])
